@@ -8,3 +8,9 @@ import "github.com/intel/fastgo/compress/flate/internal/deflate"
 // VerifSetCompressorTrace installs (or, with nil, removes) the receiver of the
 // compressor's mechanism events (verif builds only). Not safe for concurrent use.
 func VerifSetCompressorTrace(f func(ev string, a, b, c, d int)) { deflate.VerifTrace = f }
+
+// VerifReaderConstants reports the sizes the inflater's output window and its
+// header staging area are built with (verif builds only).
+func VerifReaderConstants() (history, behind, vectorMargin, longestCopy, headerStaging int) {
+	return historySize, lookAhead, outBufferSlop, copyLenMax, maxHdrSize
+}
